@@ -55,6 +55,7 @@ func checkC08(c *Check) {
 	c.Rule("C08.R2", "first match is final: within the chain loop the next chain is reachable only through the false outcome of matches(current chain's criterion, request); every path taken after a match ends in a return.", 2)
 	c.Rule("C08.R3", "all filters, first denial wins, response as is: (with C01.R5) the handler is chosen by a type switch with an arm for every filter kind that survives configuration loading, each arm building its handler from that filter's own configuration; the denial returned is the response object the handler filled.", 4)
 	c.Rule("C08.R4", "default: code after the chain loop returns the shared allow only when AllowUnmatchedRequests is set and otherwise a fresh response with PermissionDenied.", 2)
+	c.Rule("C08.R6", "configured order is what Check walks: no own function outside the generated code assigns Config.Chains, FilterChain.Filters or FilterChain.FilterChainMatch (the loader may change a filter's type when merging overrides, never the lists or the match criteria).", 1)
 	c.Rule("C08.R5", "criterion: a nil criterion matches; the header is looked up under strings.ToLower(criterion header); a non-empty equality value is compared with string ==; otherwise strings.HasPrefix(header value, configured prefix) with the header value as subject.", 5)
 	if !requireRoles(c, "C08.R1", R, "CheckEntry") {
 		return
@@ -303,6 +304,30 @@ func checkC08(c *Check) {
 				}
 			}
 			if c.Anchor("C08.R4", "chain loop exit", exit != nil) {
+				// the fall-through is entered only by exhausting the chain list: no edge from inside the loop body
+				// (a `break` before or without a match would hand a request that matches a later chain to the default)
+				onlyExhaustion := true
+				var stack []*ssa.BasicBlock
+				seenB := map[*ssa.BasicBlock]bool{}
+				stack = append(stack, exit)
+				for len(stack) > 0 {
+					b := stack[len(stack)-1]
+					stack = stack[:len(stack)-1]
+					if seenB[b] {
+						continue
+					}
+					seenB[b] = true
+					for _, p := range b.Preds {
+						if p == head || seenB[p] {
+							continue
+						}
+						if blockReaches(head, p) && head.Dominates(p) && !exit.Dominates(p) {
+							onlyExhaustion = false // p is in the loop body
+						}
+					}
+				}
+				c.Obl(onlyExhaustion, "C08.R4", "default-only-after-all-chains", P.Pos(instrPos(head.Instrs[len(head.Instrs)-1])), "the unmatched-request tail is entered only when the chain list is exhausted",
+					"the unmatched-request tail can be entered from inside the chain loop (break): a request that matches a later chain is answered by the default rule")
 				rets := returnsReachable(exit, nil)
 				allowG := P.SSA[pkgServer].Var("allow")
 				okDef := len(rets) >= 2
@@ -333,6 +358,34 @@ func checkC08(c *Check) {
 				c.Obl(denyTemplateOK(P), "C08.R4", "deny-template", "internal/server", "deny(code, msg) builds a response with that code", "the deny template does not put its code argument into the status")
 			}
 		}
+	}
+
+	// ---- R6: the list Check walks is the configured list
+	nW := 0
+	for _, f := range P.Funcs {
+		if strings.HasPrefix(pkgPathOf(f), modPath+"/config/gen/") {
+			continue
+		}
+		for _, b := range f.Blocks {
+			for _, ins := range b.Instrs {
+				st, ok := ins.(*ssa.Store)
+				if !ok {
+					continue
+				}
+				fa, isF := st.Addr.(*ssa.FieldAddr)
+				if !isF {
+					continue
+				}
+				id := fieldAddrID(fa)
+				if id == pkgCfgV1+".Config.Chains" || id == pkgCfgV1+".FilterChain.Filters" || id == pkgCfgV1+".FilterChain.FilterChainMatch" {
+					nW++
+					c.Fail("C08.R6", "list-write/"+fnKey(f)+"/"+shortID(id), P.Pos(st.Pos()), "own code assigns "+shortID(id)+": the chain/filter list that Check walks is no longer the configured list in the configured order")
+				}
+			}
+		}
+	}
+	if nW == 0 {
+		c.Pass("C08.R6", "no-list-writer", "-", "no own (non-generated) function assigns Config.Chains, FilterChain.Filters or FilterChain.FilterChainMatch")
 	}
 
 	// ---- R5
